@@ -20,10 +20,12 @@ structure ChainOK (s : Sys) : Prop where
   content : ∀ c ∈ s.agg, c.to_ ≤ lastProcessed s.l2 ∧ c.bridges = bridgesIn s.l2 c.from_ c.to_ ∧
     c.claims = claimsIn s.l2 c.from_ c.to_
   l2sorted : s.l2.Pairwise (fun a b => a.num < b.num)
+  roots : ∀ c ∈ s.agg, c.prev = cnt s.l2 (c.from_ - 1) ∧ c.new = cnt s.l2 c.to_
+  depositIds : ∀ t, (bridgesIn s.l2 0 t).map (·.id) = List.range (cnt s.l2 t)
 
 /-- the full statement, parametrised by the admissible configurations -/
 def C02_Statement (admissible : Cfg → Prop) : Prop :=
-  ∀ (size : Params → Nat) (cfg : Cfg) (ops : List Op), admissible cfg → (∀ op ∈ ops, OpOK op) →
+  ∀ (size : Params → Nat) (cfg : Cfg) (ops : List Op), admissible cfg → opsOK size { cfg := cfg } ops = true →
     ChainOK (run size { cfg := cfg } ops)
 
 /-- **C02, proved for Agglayers whose certificate headers carry the previous local exit root** (`omitPrev = false`;
@@ -33,8 +35,9 @@ def C02_Statement (admissible : Cfg → Prop) : Prop :=
 theorem C02_chain_partial : C02_Statement (fun cfg => cfg.omitPrev = false) := by
   intro size cfg ops hcfg hops
   have hi := run_inv size ops { cfg := cfg } (init_inv cfg hcfg) hops
+  generalize run size { cfg := cfg } ops = s at hi
   exact ⟨hi.closedPrefix, hi.chain, fun c hc => ⟨(hi.content c hc).1, (hi.content c hc).2.1, (hi.content c hc).2.2.1⟩,
-    hi.l2sorted⟩
+    hi.l2sorted, fun c hc => ⟨(hi.counts c hc).1, (hi.counts c hc).2⟩, prefix_ids s.l2 hi.l2sorted hi.deposits⟩
 
 /-! ### what `expect` says, spelled out -/
 
@@ -76,61 +79,6 @@ theorem C02_after_settled (s : Sys) (h : ChainOK s) (i : Nat) (hi : i + 1 < s.ag
   exact h1
 
 /-! ### the settled chain covers every event exactly once, in chain order -/
-
-def evsIn (sel : L2Blk → List Ev) (l2 : List L2Blk) (f t : Nat) : List Ev :=
-  (l2.filter (fun b => decide (f ≤ b.num) && decide (b.num ≤ t))).flatMap sel
-
-theorem bridgesIn_eq (l2 : List L2Blk) (f t : Nat) : bridgesIn l2 f t = evsIn (·.bridges) l2 f t := rfl
-theorem claimsIn_eq (l2 : List L2Blk) (f t : Nat) : claimsIn l2 f t = evsIn (·.claims) l2 f t := rfl
-
-theorem evsIn_empty_of_gt (sel : L2Blk → List Ev) (l2 : List L2Blk) (f t : Nat) (h : ∀ b ∈ l2, t < b.num) :
-    evsIn sel l2 f t = [] := by
-  unfold evsIn
-  have : l2.filter (fun b => decide (f ≤ b.num) && decide (b.num ≤ t)) = [] := by
-    apply List.filter_eq_nil_iff.mpr
-    intro b hb; have := h b hb; simp; omega
-  rw [this]; rfl
-
-theorem evsIn_cons (sel : L2Blk → List Ev) (b : L2Blk) (rest : List L2Blk) (f t : Nat) :
-    evsIn sel (b :: rest) f t = (if f ≤ b.num ∧ b.num ≤ t then sel b else []) ++ evsIn sel rest f t := by
-  unfold evsIn
-  rw [List.filter_cons]
-  by_cases c : f ≤ b.num ∧ b.num ≤ t
-  · have : (decide (f ≤ b.num) && decide (b.num ≤ t)) = true := by simp [c.1, c.2]
-    rw [if_pos this, if_pos c, List.flatMap_cons]
-  · have : ¬ (decide (f ≤ b.num) && decide (b.num ≤ t)) = true := by simpa using c
-    rw [if_neg this, if_neg c]; rfl
-
-/-- on sorted blocks, the events of `[a, m]` followed by those of `[m+1, t]` are the events of `[a, t]` -/
-theorem evsIn_split (sel : L2Blk → List Ev) (l2 : List L2Blk) (hs : l2.Pairwise (fun a b => a.num < b.num))
-    (a m t : Nat) (h1 : a ≤ m + 1) (h2 : m ≤ t) :
-    evsIn sel l2 a m ++ evsIn sel l2 (m + 1) t = evsIn sel l2 a t := by
-  induction l2 with
-  | nil => simp [evsIn]
-  | cons b rest ih =>
-    rw [List.pairwise_cons] at hs
-    have ih := ih hs.2
-    rw [evsIn_cons, evsIn_cons, evsIn_cons]
-    by_cases c1 : a ≤ b.num ∧ b.num ≤ m
-    · have c2 : ¬ (m + 1 ≤ b.num ∧ b.num ≤ t) := by omega
-      have c3 : a ≤ b.num ∧ b.num ≤ t := by omega
-      rw [if_pos c1, if_neg c2, if_pos c3, List.nil_append, List.append_assoc, ih]
-    · rw [if_neg c1]
-      by_cases c2 : m + 1 ≤ b.num ∧ b.num ≤ t
-      · have c3 : a ≤ b.num ∧ b.num ≤ t := by omega
-        have he : evsIn sel rest a m = [] := evsIn_empty_of_gt sel rest a m (fun x hx => by have := hs.1 x hx; omega)
-        rw [if_pos c2, if_pos c3, he, List.nil_append, List.nil_append]
-        rw [he, List.nil_append] at ih
-        rw [ih]
-      · have c3 : ¬ (a ≤ b.num ∧ b.num ≤ t) := by omega
-        rw [if_neg c2, if_neg c3, List.nil_append, List.nil_append, List.nil_append, ih]
-
-theorem evsIn_empty_range (sel : L2Blk → List Ev) (l2 : List L2Blk) (f t : Nat) (h : t < f) : evsIn sel l2 f t = [] := by
-  unfold evsIn
-  have : l2.filter (fun b => decide (f ≤ b.num) && decide (b.num ≤ t)) = [] := by
-    apply List.filter_eq_nil_iff.mpr
-    intro b _; simp; omega
-  rw [this]; rfl
 
 /-- the settled certificates among the first `n` submissions, in submission (= height) order, carry exactly the
     events of the blocks from the start block up to where the next certificate must begin -/
@@ -225,10 +173,7 @@ def demoOps : List Op :=
     .epoch false, .move 1 .inError, .l2blk ⟨2, [⟨2, 0, 2⟩], []⟩, .epoch true, .restart,
     .move 2 .settled, .status false, .l2blk ⟨4, [], [⟨4, 5, 1⟩]⟩, .epoch false, .move 3 .settled, .status false ]
 
-example : ∀ op ∈ demoOps, OpOK op := by
-  intro op hop
-  simp only [demoOps, List.mem_cons, List.not_mem_nil, or_false] at hop
-  rcases hop with rfl | rfl | rfl | rfl | rfl | rfl | rfl | rfl | rfl | rfl | rfl | rfl | rfl <;> simp [OpOK]
+example : opsOK sizeExact {} demoOps = true := by decide
 example : ((run sizeExact {} demoOps).agg.map (fun c => [c.id, c.height, c.from_, c.to_, c.prev, c.new])) =
     [[1, 0, 1, 1, 0, 2], [2, 0, 1, 2, 0, 3], [3, 1, 3, 4, 3, 3]] ∧
     (run sizeExact {} demoOps).agg.map (·.status) = [St.inError, St.settled, St.settled] := by decide
